@@ -446,7 +446,7 @@ impl Property for C09Log {
             })
             .boxed()
     }
-    fn cases(&self, tier: Tier) -> u32 { match tier { Tier::Quick => 6_000, Tier::Thorough => 120_000 } }
+    fn cases(&self, tier: Tier) -> u32 { match tier { Tier::Quick => 20_000, Tier::Thorough => 200_000 } }
     fn run(&self, case: &LogCase) -> RunReport {
         let case = &sanitize(case.clone());
         let run = execute(case);
